@@ -3,7 +3,7 @@
 E2 + hook H1.  Nesting shapes = compositions of frame kinds (h/h_vmerr.c: vm_kinds[]); for every shape P and every
 instruction boundary k = 1..N(P) the shape is re-run with a catchable error (second pass: a thrown value) raised
 at dispatch k, once uncaught to a driver-style entry and once under a top-level catch (catch is also a frame kind, so
-every placement of a catch inside the nesting is a shape of its own).  A third part puts 16 genuine error sites at
+every placement of a catch inside the nesting is a shape of its own).  A third part puts 100 error sites (16 genuine error sites + 84 callback efuns with an unresolvable / wrong callback) at
 the leaf of every shape.  Oracles: register snapshot at the driver entry and at every catch point that completes,
 the value every catch yields, and a fixed probe evaluation compared with a fresh driver."""
 import json, os
@@ -27,10 +27,12 @@ RULE = ("nesting shapes = all compositions up to depth D of the frame kinds K (3
         "container, add_action verb via command() (by name, funptr with carry-over args), catch_tell via tell_object, id() via present, "
         "master applies valid_read/object_name(safe_apply)/creator_file/valid_object/valid_seteuid/valid_bind/valid_override(compile time) "
         "made by efuns); element = (shape P, uncaught | under a top-level catch, k) for EVERY k = 1..N(P) (N measured in a fault-free "
-        "run): the hook raises error(\"*verif fault k\") [pass 2: throw(({1,\"t\"}))] at dispatch k; part 'sites': 16 genuine error sites "
+        "run): the hook raises error(\"*verif fault k\") [pass 2: throw(({1,\"t\"}))] at dispatch k; part 'sites': 100 error sites = 16 genuine error sites "
         "(error(), throw(), division by zero, index out of bounds, bad operand, call_other on 0, efun bad argument, sprintf error, "
         "index error inside foreach, too deep recursion, eval cost, stack overflow, load of a missing / non-compiling file, "
-        "destruct(this_object()) then error, error between a varargs spread and its call) as the leaf of every shape; master behaviour "
+        "destruct(this_object()) then error, error between a varargs spread and its call) and 84 leaves 'callback efun with an unresolvable / wrong callback' "
+        "({filter array/mapping(+extra args), map array/mapping/string, sort_array, unique_array, unique_mapping, implode, call_out, add_action, "
+        "input_to} x target {0, destructed object, unloadable file, object without that function, float target, float callback}) as the leaf of every shape; master behaviour "
         "dimension: error_handler() = plain log | evaluates catch(error(...)) and a successful catch before it logs; part 'api': the driver's "
         "own entry points called from C as backend/comm/call_out do -- safe_apply, apply, safe_call_function_pointer, call_function_pointer, "
         "apply_master_ob, safe_apply_master_ob x target {live, destructed just before / funptr whose owner is destructed} x {function "
